@@ -100,13 +100,12 @@ func checkC11(c *Ctx) {
 	c.notDecided = "wall-clock promptness; tss-lib internals; goroutine leak freedom"
 	c.Assume("context.Context: Done() is closed on cancellation/expiry and Err() is then non-nil; sync.Cond semantics")
 	const O1, O2, O3, O4, P1, G1 = "C11.O1", "C11.O2", "C11.O3", "C11.O4", "C11.P1", "C11.G1"
-	c.Rule(O1, "every continuation path reports on the result channel", 4)
-	c.Rule(O2, "API blocks only in a select with a ctx.Done() arm; result channel buffered", 4)
-	c.Rule(O3, "BLS/PS waits report expiry (thresholds in normal form) and callers honour it", 24)
-	c.Rule(O4, "context monitor armed before the waits, signalling under the lock; waits park only after a fresh context check", 6)
-	c.Rule(P1, "explicit panics reachable from KeyGen/Sign have a frozen reason", 20)
-	c.Rule(G1, "adapter session loops have a ctx.Done() arm returning an error", 4)
-
+	c.Rule(O1, "every continuation path reports on the result channel", 2)
+	c.Rule(O2, "API blocks only in a select with a ctx.Done() arm; result channel buffered", 2)
+	c.Rule(O3, "BLS/PS waits report expiry (thresholds in normal form) and callers honour it", 12)
+	c.Rule(O4, "context monitor armed before the waits, signalling under the lock; waits park only after a fresh context check", 3)
+	c.Rule(P1, "explicit panics reachable from KeyGen/Sign have a frozen reason", 10)
+	c.Rule(G1, "adapter session loops have a ctx.Done() arm returning an error", 2)
 	t := buildThresholdModel(c)
 	if t != nil {
 		m := t.m
@@ -505,6 +504,10 @@ var panicReasons = []panicReason{
 }
 
 func auditPanics(c *Ctx, rule string, m *Module, pkg string, entries []*ssa.Function) {
+	for _, r := range panicReasons {
+		c.anchorReasonFn(r.fnSuffix)
+	}
+	m.resolveAllAnchors()
 	seen := map[*ssa.Function]bool{}
 	var walk func(fn *ssa.Function)
 	var found []*ssa.Panic
@@ -554,15 +557,31 @@ func isContextType(t types.Type) bool {
 	return ok && n.Obj().Pkg() != nil && n.Obj().Pkg().Path() == "context" && n.Obj().Name() == "Context"
 }
 
+// pkgOfReasonFn: "mpc/bls" for "(*mpc/bls.TBLS).ensureInitOrPanic", "threshold" for "threshold.newRBCEncoding".
+func pkgOfReasonFn(key string) string {
+	k := strings.TrimLeft(key, "(*")
+	if i := strings.Index(k, "."); i >= 0 {
+		return k[:i]
+	}
+	return ""
+}
+
 // panicFnMatches: a reason names the top-level function a panic belongs to; the panic may sit in that
-// function, in a function literal nested in it, or in a transparent helper inlined into it.
+// function, in a function literal nested in it, or in a transparent helper inlined into it.  A panic
+// that moved with its helper into a caller (the helper was inlined) is still the same panic: the text
+// identifies it inside the package the reason names.
 func panicFnMatches(fn *ssa.Function, suffix string) bool {
+	if pk := pkgOfReasonFn(suffix); pk != "" {
+		if rel := strings.TrimPrefix(pkgPathOf(fn), "github.com/IBM/TSS/"); rel == pk && reasonFnGone(suffix) {
+			return true // the named function is gone (inlined): the text alone identifies the panic
+		}
+	}
 	base := suffix
 	if i := strings.Index(base, "$"); i >= 0 {
 		base = base[:i]
 	}
 	for f := fn; f != nil; {
-		name := FuncName(f)
+		name := nameBack(FuncName(f))
 		if strings.HasSuffix(name, suffix) || strings.HasSuffix(name, base) {
 			return true
 		}
@@ -577,4 +596,36 @@ func panicFnMatches(fn *ssa.Function, suffix string) bool {
 		break
 	}
 	return false
+}
+
+var reasonFnExists = map[string]bool{}
+var loadedModules []*Module
+
+// reasonFnGone: no function of the package a reason names carries the name any more (nor was it renamed).
+func reasonFnGone(suffix string) bool {
+	pk := pkgOfReasonFn(suffix)
+	if pk == "" {
+		return false
+	}
+	key := suffix
+	if i := strings.Index(key, "$"); i >= 0 {
+		key = key[:i]
+	}
+	if v, has := reasonFnExists[key]; has {
+		return !v
+	}
+	reasonFnExists[key] = false
+	for _, m := range loadedModules {
+		for p := range m.All {
+			if strings.TrimPrefix(p, "github.com/IBM/TSS/") != pk {
+				continue
+			}
+			for _, f := range m.PkgFuncs(p) {
+				if strings.HasSuffix(nameBack(FuncName(f)), key) {
+					reasonFnExists[key] = true
+				}
+			}
+		}
+	}
+	return !reasonFnExists[key]
 }
